@@ -585,6 +585,45 @@ class FG:
         self.place(lj)
         self.p.features.add('ovf:' + op + '+' + br)
 
+    def g_counted_loop(self):
+        """a small inner loop whose counter is (re)initialised right here and whose closing branch tests
+        the counter value from BEFORE the decrement (c2mir's `while (w-- > 0)`): a single-block loop in
+        which the branch reads the phi value after the back-edge copy was inserted"""
+        r = self.rng
+        c, t = self.new_local('lc'), self.new_local('lt')
+        wide = r.random() < 0.5
+        sub = 'sub' if wide else 'subs'
+        if self.O and r.random() < 0.6:
+            self.emit('and', R(c), R(r.choice(self.O)), Imm(3))
+            if r.random() < 0.5: self.emit('add', R(c), R(c), Imm(1))
+        else:
+            self.emit('mov', R(c), Imm(r.choice([1, 2, 3, 4])))
+        lh = self.label()
+        shape = r.choice(['post', 'post', 'pre', 'rotated'])
+        if shape == 'rotated':
+            # guard + do-while, the form c2mir emits
+            lx = self.label()
+            self.emit('mov', R(t), R(c)); self.emit(sub, R(c), R(c), Imm(1))
+            self.emit('ubles' if not wide else 'uble', lx, R(t), Imm(0))
+            self.place(lh)
+            for _ in range(r.randrange(1, 4)):
+                r.choice([self.g_alu64, self.g_alu32, self.g_load, self.g_store, self.g_mov])()
+            self.emit('mov', R(t), R(c)); self.emit(sub, R(c), R(c), Imm(1))
+            self.emit('ubgts' if not wide else 'ubgt', lh, R(t), Imm(0))
+            self.place(lx)
+        else:
+            self.place(lh)
+            for _ in range(r.randrange(1, 4)):
+                r.choice([self.g_alu64, self.g_alu32, self.g_load, self.g_store, self.g_mov])()
+            if shape == 'post':
+                self.emit('mov', R(t), R(c)); self.emit(sub, R(c), R(c), Imm(1))
+                self.emit(r.choice(['bgts', 'ubgts', 'bnes']) if not wide else r.choice(['bgt', 'ubgt', 'bne']),
+                          lh, R(t), Imm(r.choice([0, 1])))
+            else:
+                self.emit(sub, R(c), R(c), Imm(1))
+                self.emit('bgts' if not wide else 'bgt', lh, R(c), Imm(0))
+        self.p.features.add('loop:counted-' + shape)
+
     def g_local_alloca(self):
         r = self.rng
         use_b = r.random() < 0.6
@@ -633,8 +672,14 @@ class FG:
         fs = self.rng.sample(self.FR, min(len(tys), len(self.FR)))
         ds = self.rng.sample(self.DR, min(len(tys), len(self.DR)))
         out = []
+        nf = nd = 0
         for i, t in enumerate(tys):
-            out.append(R(fs[i % len(fs)]) if t == 'f' else R(ds[i % len(ds)]) if t == 'd' else R(ints[i]))
+            if t == 'f':
+                out.append(R(fs[nf])); nf += 1
+            elif t == 'd':
+                out.append(R(ds[nd])); nd += 1
+            else:
+                out.append(R(ints[i]))
         return out
 
     def g_call_ext(self):
@@ -701,7 +746,7 @@ class FG:
         r = self.rng
         kinds = [(self.g_alu64, 14), (self.g_alu32, 12), (self.g_neg, 2), (self.g_ext, 6), (self.g_cmp, 7),
                  (self.g_shift, 7), (self.g_div, 7), (self.g_load, 8), (self.g_store, 9), (self.g_mov, 5),
-                 (self.g_ovf, 4), (self.g_local_alloca, 2), (self.g_call_ext, 3),
+                 (self.g_ovf, 4), (self.g_local_alloca, 2), (self.g_counted_loop, 3), (self.g_call_ext, 3),
                  (self.g_call_mir, self.opts.get('w_call', 4)), (self.g_self_call, 1)]
         if self.opts.get('fp', True) and self.FR:
             kinds += [(self.g_farith, 8), (self.g_fcmp, 3), (self.g_fconv, 4), (self.g_fmov, 4), (self.g_fbranch, 2)]
